@@ -51,7 +51,8 @@ def _hang_violation(res, r, argv, what_prefix, detail):
 # (a) differential over configurations
 
 def _mk_input(rng, n, nfiles, fmt):
-    recs = gen.records(rng, n, ragged=rng.choice([0, 0.15]), hetero=rng.random() < 0.3)
+    # >= 12 fields switches a record to its hash index (--hash-records / default) - a separate code path
+    recs = gen.records(rng, n, ragged=rng.choice([0, 0.15]), hetero=rng.random() < 0.3, wide=rng.random() < 0.3)
     cuts = sorted(rng.randint(0, n) for _ in range(nfiles - 1))
     parts = []
     prev = 0
@@ -93,7 +94,7 @@ def diff_case(case):
     res = case_result(_h("a", seed), nontrivial=False)
     variants = [("default", [], {})]
     bs_pool = [1, 2, 3, 7, max(1, n - 1), max(1, n), n + 1, 500, 1000000]
-    nvar = 5 if tier == "quick" else 13
+    nvar = 6 if tier == "quick" else 13
     pool = []
     for b in sorted(set(bs_pool)):
         pool.append((f"rpb={b}", ["--records-per-batch", str(b)], {}))
@@ -110,6 +111,7 @@ def diff_case(case):
     # always include batch 1 and a perturbed run
     chosen = [pool_item for pool_item in pool if pool_item[0] in ("rpb=1",)]
     chosen += [p for p in pool if p[0].startswith("sched")][:1]
+    chosen += [p for p in pool if p[0] in ("hash-records", "no-hash-records")]
     for p in pool:
         if len(chosen) >= nvar:
             break
@@ -174,6 +176,63 @@ def diff_case(case):
         bump(res, "commands_with_gt1_interleaving")
     res["sample"] = {"monitor": "a", "argv": base + argv_chain, "n_records": n, "files": len(files),
                      "variants": [v[0] for v in variants], "distinct_interleavings": len(sigs)}
+    return res
+
+
+# ------------------------------------------------------------------------------------------
+# (a2) hash-index differential: records with >= 12 fields carry a key index when --hash-records (the default for wide
+# records) is on; every field-restructuring verb maintains it by hand. Output must not depend on it.
+
+def hash_case(case):
+    import random
+    rng = random.Random(case["seed"])
+    nf = rng.choice([11, 12, 12, 13, 16])
+    names = [f"f{j}" for j in range(nf)]
+    recs = []
+    for k in range(rng.choice([1, 3, 8])):
+        recs.append([("id", f"r{k+1}")] + [(nm, f"v{k}_{j}") for j, nm in enumerate(names) if rng.random() > 0.05])
+    a, b, c = rng.sample(names, 3)
+    new = rng.choice(["zz", "brandnew", b])
+    restructure = [
+        ["rename", f"{a},{new}"], ["rename", "-r", f"^{a}$,{new}"], ["rename", "-g", "-r", f"{a[0]},{new[0]}"], ["reorder", "-f", a], ["reorder", "-e", "-f", a],
+        ["cut", "-x", "-f", a], ["label", "L0,L1"], ["put", f"unset ${a}"], ["put", f"${new} = ${a}; unset ${a}"], ["put", f"$*  = mapexcept($*, \"{a}\")"],
+        ["nest", "--ivar", ";", "-f", a], ["sort-within-records"], ["template", "-f", ",".join(names[:5] + ["tt"])], ["put", f"$[[3]] = \"{new}\""],
+        ["put", f"map m = $*; unset m[\"{a}\"]; $* = m"], ["unsparsify", "-f", f"{new},{a}"], ["fill-down", "-a", "-f", a], ["sec2gmt", a],
+    ]
+    use = [
+        ["cut", "-o", "-f", f"{new},{a},{c}"], ["put", f"${a} = \"X\""], ["put", f"$seen = is_present(${a}) . \":\" . is_present(${new})"], ["sort", "-f", a],
+        ["rename", f"{new},{a}"], ["cut", "-f", f"{a},{new}"], ["having-fields", "--at-least", a], ["reorder", "-f", new], ["put", f"unset ${new}"],
+        ["count-distinct", "-f", a], ["head", "-n", "1", "-g", a], ["put", f"$nf = NF; $k = joink($*, \",\")"], ["cut", "-x", "-f", new], ["rename", f"{a},{c}"],
+    ]
+    chain = [rng.choice(restructure)]
+    if rng.random() < 0.4:
+        chain.append(rng.choice(restructure))
+    chain.append(rng.choice(use))
+    if rng.random() < 0.3:
+        chain.append(rng.choice(use))
+    argv = []
+    for i, v in enumerate(chain):
+        if i:
+            argv.append("then")
+        argv += v
+    inp = gen.dkvp(recs)
+    res = case_result(_h("a2", case["seed"]), nontrivial=(nf >= 12))
+    outs = {}
+    for flag in ("--hash-records", "--no-hash-records", None):
+        fl = [flag] if flag else []
+        r = R.mlr(fl + ["--ojson"] + argv, stdin=inp)
+        bump(res, "runs")
+        if r.verdict != "exited":
+            if _hang_violation(res, r, argv, "hash differential", {"argv": fl + argv, "stdin": inp}):
+                continue
+        outs[flag or "default"] = (r.rc, r.stdout if r.rc == 0 else None)
+    res["sample"] = {"monitor": "a2", "argv": argv, "fields": nf}
+    vals = set(outs.values())
+    if len(vals) > 1:
+        add_violation(res, {"kind": "hash-records-dependence", "verbs": ",".join(v[0] for v in chain)},
+                      f"output depends on --hash-records / --no-hash-records for records of {nf + 1} fields: mlr {' '.join(argv)}",
+                      {"argv": ["--no-hash-records", "--ojson"] + argv, "stdin": inp,
+                       "outputs": {k: (v[0], (v[1] or b"")[:600]) for k, v in outs.items()}})
     return res
 
 
@@ -677,6 +736,9 @@ def run(chk):
     if not only or "a" in only:
         n = 110 if q else 1400
         chk.pmap(diff_case, [{"seed": f"{chk.seed}/a/{i}", "tier": chk.tier} for i in range(n)], label="a differential")
+    if not only or "a" in only or "a2" in only:
+        n = 150 if q else 4000
+        chk.pmap(hash_case, [{"seed": f"{chk.seed}/a2/{i}"} for i in range(n)], label="a2 hash-index differential")
     if not only or "b" in only:
         n = 130 if q else 3000
         cases = [{"seed": f"{chk.seed}/b/{i}", "tier": chk.tier} for i in range(n)]
